@@ -279,7 +279,7 @@ PROPS = {
     "C15": dict(
         engine="histsim", profile="C15", builds=["dbg", "rwdi", "rel"], level="exploration",
         parts=[dict(engine="histsim", profile="C15", builds=["dbg", "rwdi", "rel"], weight=3.0),
-               dict(engine="histsim", profile="C15X", builds=["dbg", "rwdi", "rel"], san="plain", weight=1.0),
+               dict(engine="histsim", profile="C15X", builds=["dbg", "rwdi", "rel", "lk", "pk"], san="plain", weight=1.2),
                dict(engine="schedsim", profile="C15T", builds=["dbg", "rwdi"], weight=0.6)],
         quick_s=40, thorough_s=600,
         technique="deterministic simulation: traits-level histories with moves and leftovers; leak-handler "
